@@ -380,7 +380,17 @@ func (ef *errFlow) exploreErrorRegion(fn *ssa.Function, e ssa.Value, src string,
 		case *ssa.If:
 			if name, eq, ok := sentinelOf(t.Cond, e); ok {
 				k := FnName(fn) + "|" + src + "|" + name
-				if _, allowed := sentinelConversions[k]; allowed {
+				_, allowed := sentinelConversions[k]
+				if !allowed && name == "io.EOF" {
+					// the same conversion with another helper between this function and io.ReadFull: the helper
+					// hands on the io.EOF of io.ReadFull (nothing read before a block) unchanged
+					for k2 := range sentinelConversions {
+						if strings.HasPrefix(k2, FnName(fn)+"|") && strings.HasSuffix(k2, "|io.EOF") && forwardsReadFullEOF(p.Fn(src), 0) {
+							allowed = true
+						}
+					}
+				}
+				if allowed {
 					// the sentinel edge is an accepted conversion; keep exploring the other edge
 					cameFrom = b
 					if eq {
@@ -602,4 +612,57 @@ func (ef *errFlow) checkResultLike(fn *ssa.Function, e ssa.Value, src string) []
 		problems = append(problems, "error of "+src+" is never tested")
 	}
 	return problems
+}
+
+// forwardsReadFullEOF: some return of library function f carries, unchanged, the error result of io.ReadFull (directly,
+// or through another library function that does): its io.EOF means that the source ended before a block.
+func forwardsReadFullEOF(f *ssa.Function, depth int) bool {
+	if f == nil || len(f.Blocks) == 0 || depth > 3 {
+		return false
+	}
+	ei := errResultIndex(f.Signature)
+	if ei < 0 {
+		return false
+	}
+	var from func(v ssa.Value, seen map[ssa.Value]bool) bool
+	from = func(v ssa.Value, seen map[ssa.Value]bool) bool {
+		if v == nil || seen[v] {
+			return false
+		}
+		seen[v] = true
+		switch x := v.(type) {
+		case *ssa.Phi:
+			for _, e := range x.Edges {
+				if from(e, seen) {
+					return true
+				}
+			}
+		case *ssa.Extract:
+			return from(x.Tuple, seen)
+		case *ssa.UnOp:
+			if al, ok := x.X.(*ssa.Alloc); ok && x.Op == token.MUL {
+				for _, r := range *al.Referrers() {
+					if st, ok := r.(*ssa.Store); ok && st.Addr == ssa.Value(al) && from(st.Val, seen) {
+						return true
+					}
+				}
+			}
+		case *ssa.Call:
+			if calleeName(&x.Call) == "io.ReadFull" {
+				return true
+			}
+			if sc := x.Call.StaticCallee(); sc != nil && sc.Pkg == f.Pkg {
+				return forwardsReadFullEOF(sc, depth+1)
+			}
+		}
+		return false
+	}
+	for _, b := range f.Blocks {
+		if r, ok := b.Instrs[len(b.Instrs)-1].(*ssa.Return); ok && ei < len(r.Results) {
+			if from(r.Results[ei], map[ssa.Value]bool{}) {
+				return true
+			}
+		}
+	}
+	return false
 }
